@@ -165,7 +165,7 @@ def run(chk):
         except Exception as ex:
             chk.fail("correlations-raise", f"raises {ex!r}", info)
 
-    n_search = 40 if (thorough or chk.disagreements or chk.broken) else 10
+    n_search = 60 if (thorough or chk.disagreements or chk.broken) else 18
     strata = [(0.05, "upper-triangle", True), (0.0, "upper-triangle", True), (0.5, "upper-triangle", False), (0.05, "square", False),
               (5.0, "rectangle", False), (0.0, "square", True), (0.5, "rectangle", True)]
     for it in range(n_search):
@@ -184,7 +184,11 @@ def run(chk):
         elif kind == "custom-sd":
             corr = oqupy.CustomSD(lambda w: 2.0 * alpha * w ** zeta * wc ** (1 - zeta), cutoff=wc, cutoff_type=ctype, temperature=T)
         else:
-            corr = oqupy.CustomCorrelations(lambda t: pw.correlation(t))
+            # an analytic correlation function (Hermitian: C(-t) = conj C(t)); cheap to evaluate, so that the library's own
+            # double quadrature over the callable stays fast
+            ca, cb, cw = rng.choice([0.1, 0.3]), rng.choice([0.5, 2.0]), rng.choice([0.0, 1.5, 4.0])
+            cfun = lambda t, ca=ca, cb=cb, cw=cw: ca * np.exp(-cb * t * t) * np.exp(-1j * cw * t)
+            corr = oqupy.CustomCorrelations(cfun)
         dt = rng.choice([0.05, 0.2])
         info = {"kind": kind, "zeta": zeta, "T": T, "cutoff_type": ctype, "dt": dt}
         eps = 1e-8
@@ -203,11 +207,18 @@ def run(chk):
             got = complex(corr.correlation_2d_integral(dt, t1, t2, shape=shape, epsrel=eps))
             hi = {"square": lambda x: dt, "rectangle": lambda x: dt, "upper-triangle": lambda x: x - t1}[shape]
             b_ = t2 if t2 is not None else t1 + dt
-            f = lambda y, x: complex(pw.correlation(x - y, epsrel=1e-10))
-            re = integrate.dblquad(lambda y, x: f(y, x).real, t1, b_, lambda x: 0.0, hi, epsabs=1e-12, epsrel=1e-9)[0]
-            im = integrate.dblquad(lambda y, x: f(y, x).imag, t1, b_, lambda x: 0.0, hi, epsabs=1e-12, epsrel=1e-9)[0]
+            memo = {}
+
+            def f(y, x):
+                # the real and the imaginary pass of dblquad visit (mostly) the same points: evaluate C once per point
+                key = x - y
+                if key not in memo:
+                    memo[key] = complex(cfun(key)) if kind == "custom-corr" else complex(pw.correlation(key, epsrel=1e-9))
+                return memo[key]
+            re = integrate.dblquad(lambda y, x: f(y, x).real, t1, b_, lambda x: 0.0, hi, epsabs=1e-12, epsrel=1e-8)[0]
+            im = integrate.dblquad(lambda y, x: f(y, x).imag, t1, b_, lambda x: 0.0, hi, epsabs=1e-12, epsrel=1e-8)[0]
             want = re + 1j * im
-            scale = max(abs(want), abs(complex(pw.correlation(0.0))) * dt * dt)
+            scale = max(abs(want), abs(complex(cfun(0.0) if kind == "custom-corr" else pw.correlation(0.0))) * dt * dt)
             if abs(got - want) > 1e-5 * scale:
                 chk.fail("cell-vs-direct-integration:" + shape + ("" if t1 == 0.0 else "-offset"),
                          f"{type(corr).__name__}.correlation_2d_integral('{shape}', delta={dt}, time_1={t1}, time_2={t2}) = {got:.6g}, "
